@@ -20,7 +20,7 @@ RULE = ('COMPLETE enumeration of the selector grammar for every plate shape up t
         '{None,1,2,3,n+1,-1,-2,0}: a zero step must be rejected, a negative step is either rejected or selects backwards with both '
         'end points included (anything else is "selecting something else"); slices of slices: every index / slice / step expression '
         'with indices in [-n-1, n+1] on seven parent selections per plate, against numpy indexing of the parent\'s wells, each on a '
-        'fresh parent and on one whose shape and size were read first; bool indices and empty selections are not judged')
+        'fresh parent and on one whose shape and size were read first; a bool is malformed everywhere; the copy and the name of a sub-selection denote its wells; an empty selection is judged by its name only')
 ASSUMPTIONS = BASE_ASSUMPTIONS + ['wells are identified by object identity with plate.wells[i, j], not by name',
                                   'any exception counts as rejection']
 QUICK_SHAPES = [(1, 1), (1, 2), (2, 1), (2, 2), (1, 3), (3, 1), (2, 3), (3, 2), (3, 3), (1, 4), (4, 1)]
@@ -31,7 +31,8 @@ def required_buckets(tier):
     return ['C13/form/int', 'C13/form/label', 'C13/form/string_cell', 'C13/form/slice', 'C13/form/tuple_atom_atom',
             'C13/form/tuple_slice_atom', 'C13/form/tuple_atom_slice', 'C13/form/tuple_slice_slice', 'C13/form/list',
             'C13/form/malformed', 'C13/labels/default', 'C13/labels/custom', 'C13/labels/28rows', 'C13/step/2', 'C13/step/3',
-            'C13/open_end', 'C13/step/backwards', 'C13/subslice/looked_at_parent', 'C13/subslice/negative_index', 'C13/labels/callers_list_changed', 'C13/subslice/index_past_the_selection']
+            'C13/open_end', 'C13/step/backwards', 'C13/subslice/looked_at_parent', 'C13/subslice/negative_index', 'C13/labels/callers_list_changed', 'C13/subslice/index_past_the_selection',
+            'C13/subslice/bool', 'C13/subslice/copy_and_name', 'C13/subslice/name_of_an_empty_selection', 'C13/malformed/bool', 'C13/malformed/nested_tuple']
 
 
 def plan(tier, seed):
@@ -97,6 +98,17 @@ def subslices(rng, case, idx):
             items.append((i_, j_))
         for i_ in range(-h - 1, h + 1):
             items.append(i_)
+        for bad in (True, False, (True, 0), (0, True), (slice(None), True), slice(True, None), slice(None, None, True), (slice(None, True), 0)):
+            M.count('ADDR')
+            M.count('ADDR.rejected')
+            M.bucket('C13/subslice/bool')
+            try:
+                sub_ = plate[par][bad]
+                sub_.get()
+            except Exception:   # noqa
+                continue
+            M.violate(['C13', 'C07'], 'ADDR', 'C13:invalid_selector_selects_something:slice_of_slice:bool',
+                      {'plate': [Rn, Cn], 'parent': repr(par), 'item': repr(bad), 'name': sub_.name})
         for n_, item in enumerate(items):
             try:
                 want = numpy.asarray(grid[item])
@@ -121,7 +133,24 @@ def subslices(rng, case, idx):
                 continue
             exp = [cells[int(k_)] for k_ in want.flatten()]
             if not exp:
-                continue                  # empty selections are not judged
+                # an empty selection may be refused; one that is accepted is not *named* as wells of the plate (the name is what
+                # instruction texts and recipe steps say)
+                try:
+                    sub_ = plate[par][item]
+                    nme = sub_.name
+                except Exception:   # noqa
+                    continue
+                M.count('ADDR')
+                M.count('ADDR.named')
+                M.bucket('C13/subslice/name_of_an_empty_selection')
+                try:
+                    named = eval(nme, {'__builtins__': {}}, {'p': plate})
+                    n_named = int(numpy.size(named.get()))
+                except Exception:   # noqa
+                    n_named = 0
+                if n_named:
+                    M.violate(['C13', 'C19'], 'ADDR', 'C13:name_of_an_empty_selection_denotes_wells', {'plate': [Rn, Cn], 'parent': repr(par), 'item': repr(item), 'name': nme, 'wells_named': n_named})
+                continue
             negative = any(isinstance(v_, int) and v_ < 0 for p_ in (item if isinstance(item, tuple) else (item,))
                            for v_ in ((p_.start, p_.stop) if isinstance(p_, slice) else (p_,)))
             for looked in (False, True):
@@ -151,6 +180,26 @@ def subslices(rng, case, idx):
                               {'plate': [Rn, Cn], 'parent': repr(par), 'item': repr(item), 'size': size, 'shape': shp, 'wells': len(exp)})
                 else:
                     M.note_nontrivial('C13', ('sub', Rn, Cn, repr(par), repr(item)))
+                    if not looked and n_ % 3 == 0:
+                        # the copy of a selection selects what the selection selects; its name denotes its wells
+                        M.count('ADDR.copy')
+                        M.bucket('C13/subslice/copy_and_name')
+                        try:
+                            cp = sub_.copy().get()
+                            cp = cp if isinstance(cp, numpy.ndarray) else numpy.array([[cp]], dtype=object)
+                            cidx = [pos[id(x)] for x in cp.flatten()]
+                        except Exception as e:   # noqa
+                            cidx = repr(e)[:120]
+                        if cidx != exp:
+                            M.violate(['C13', 'C04'], 'ADDR', 'C13:copy_of_a_slice_of_a_slice_selects_other_wells', {'plate': [Rn, Cn], 'parent': repr(par), 'item': repr(item), 'copy_selects': cidx[:10] if isinstance(cidx, list) else cidx, 'selection': exp[:10]})
+                        try:
+                            named = eval(sub_.name, {'__builtins__': {}}, {'p': plate}).get()
+                            named = named if isinstance(named, numpy.ndarray) else numpy.array([[named]], dtype=object)
+                            nidx = sorted(pos[id(x)] for x in named.flatten())
+                        except Exception as e:   # noqa
+                            nidx = repr(e)[:120]
+                        if nidx != sorted(exp):
+                            M.violate(['C13', 'C19'], 'ADDR', 'C13:name_of_a_slice_of_a_slice_denotes_other_wells', {'plate': [Rn, Cn], 'parent': repr(par), 'item': repr(item), 'name': sub_.name, 'named': nidx[:10] if isinstance(nidx, list) else nidx, 'selection': sorted(exp)[:10]})
 
 
 def atoms(labels):
@@ -337,8 +386,14 @@ def enumerate_(rng, case, idx):
         # malformed families
         for bad in (1.0, 2.5, None, (1, 2, 3), ((1, 1), 1), (1, (1, 1)), (None, 1), (1, None), (1.0, 1), (1, 1.5),
                     [1], ['A'], [(1, 2, 3)], [1.0], [None], {'A': 1}, (slice(None), slice(None), slice(None)), (), b'A:1',
-                    (slice(1.0, 2), 1), (slice(None, None, 1.5), 1), slice(1.5, None), slice(None, 2.5)):
+                    (slice(1.0, 2), 1), (slice(None, None, 1.5), 1), slice(1.5, None), slice(None, 2.5),
+                    # booleans (ints to Python, not indices) anywhere; a single wrapped in one more tuple
+                    True, False, (True, True), (True, 1), (1, True), (False, 1), (slice(None), True), (True, slice(None)), [(True, 1)], [(1, True)],
+                    slice(True, None), slice(None, True), slice(None, None, True), (slice(True, None), 1), (1, slice(None, None, True)),
+                    [((1, 1),)], [((1, 1),), 'A:1'], [(('A', '1'),)], [(1,)], [((1, 1), (1, 1))]):
             go(bad)
+            if bad is True or (isinstance(bad, list) and bad and isinstance(bad[0], tuple) and len(bad[0]) == 1):
+                M.bucket('C13/malformed/' + ('bool' if bad is True else 'nested_tuple'))
     # the pair space, split over the parts
     n = 0
     for a in axis_r:
